@@ -3,6 +3,8 @@ tuples are (quick, thorough)."""
 from xvlib import Job
 
 PURE = dict(pkg="xv_pure", binname="xv_pure")
+MIRI = dict(pkg="xv_miri", binname="xv_miri", kind="miri", profile="miri")
+ASAN = dict(pkg="xv_pure", binname="xv_pure", kind="asan", tiers=("thorough",))
 
 PROPS = {}
 
@@ -15,9 +17,10 @@ PROPS["C04"] = dict(
     assumptions=["gearhash::DEFAULT_TABLE constants are taken as data", "blake3 is correct", "streams < 4 GiB"],
     jobs=[
         Job("chunker", engine="chunker", workers=(8, 16), cases=(400, 40000), time_s=(40, 600), args={"max-target-log": (18, 20)}, **PURE),
+        Job("miri-chunker", engine="chunker", workers=(2, 16), cases=(4, 25), time_s=(120, 900), **MIRI),
     ],
     gates=dict(evaluations=(5000, 100000), distinct=(300, 1000),
-               counters={"locality_cases": (100, 2000), "cases_with_forced_max_cut": (20, 500), "cases_with_chunk_at_minimum_edge": (10, 200)}),
+               counters={"locality_cases": (100, 2000), "cases_with_forced_max_cut": (20, 500), "cases_with_chunk_at_minimum_edge": (10, 200), "miri_streams": (6, 300)}),
 )
 
 PROPS["C06"] = dict(
@@ -29,8 +32,9 @@ PROPS["C06"] = dict(
     assumptions=["blake3 is correct and collision resistant", "a chunk hash recurs only with the same length"],
     jobs=[
         Job("hash", engine="hash", workers=(8, 16), cases=(150, 6000), time_s=(40, 700), **PURE),
+        Job("miri-hashes", engine="hashes", workers=(3, 16), cases=(3, 25), time_s=(120, 900), **MIRI),
     ],
-    gates=dict(evaluations=(600, 20000), distinct=(40, 80), counters={"golden_checked": (9, 9), "mutations_checked": (2000, 50000), "validator_agreements": (100, 3000)}),
+    gates=dict(evaluations=(600, 20000), distinct=(40, 80), counters={"golden_checked": (9, 9), "mutations_checked": (2000, 50000), "validator_agreements": (100, 3000), "miri_lists": (6, 300)}),
 )
 
 PROPS["C07"] = dict(
@@ -43,9 +47,12 @@ PROPS["C07"] = dict(
     jobs=[
         Job("xorb_rt", engine="xorb_rt", workers=(8, 16), cases=(60, 4000), time_s=(40, 700), extra_workers_arg=True,
             args={"max-chunks": (300, 1200), "bg4-max-len": (4100, 20000)}, **PURE),
+        Job("miri-bg4", engine="bg4", workers=(3, 16), cases=(1, 1), time_s=(120, 900), args={"span": (40, 70)}, **MIRI),
+        Job("miri-xorb", engine="xorb", workers=(2, 16), cases=(1, 5), time_s=(150, 900), args={"mutants": (2, 6)}, **MIRI),
+        Job("asan-xorb_rt", engine="xorb_rt", workers=(8, 8), cases=(300, 300), time_s=(300, 300), extra_workers_arg=True, args={"max-chunks": 300, "bg4-max-len": 4100}, **ASAN),
     ],
     gates=dict(evaluations=(300, 10000), distinct=(100, 400),
-               counters={"ranges_checked": (10000, 300000), "bg4_lengths_checked": (4101, 20001), "xorbs_with_incompressible_fallback": (50, 1000)}),
+               counters={"ranges_checked": (10000, 300000), "bg4_lengths_checked": (4101, 20001), "xorbs_with_incompressible_fallback": (50, 1000), "miri_bg4_lengths": (100, 1000), "miri_xorbs": (2, 60)}),
     exhaustive_note="bg4 split/regroup (all variants) for every input length 0..bg4-max-len",
 )
 
@@ -59,9 +66,11 @@ PROPS["C08"] = dict(
     assumptions=["allocation limit 256 MiB per call; inputs declaring > 2^28 boundary entries are not fed to deserialize_only_boundaries_section (harness memory safety valve)"],
     jobs=[
         Job("xorb_val", engine="xorb_val", workers=(8, 16), cases=(40, 3000), time_s=(40, 700), args={"mutants": (150, 300)}, **PURE),
+        Job("miri-xorb", engine="xorb", workers=(2, 16), cases=(1, 5), time_s=(150, 900), args={"mutants": (3, 8)}, **MIRI),
+        Job("asan-xorb_val", engine="xorb_val", workers=(8, 8), cases=(400, 400), time_s=(300, 300), args={"mutants": 200}, **ASAN),
     ],
     gates=dict(evaluations=(50000, 2000000), distinct=(200, 400),
-               counters={"valid_forms_checked": (600, 20000), "bases_with_exhaustive_header_footer_flips": (20, 500), "mutants_accepted_v1": (100, 1000)}),
+               counters={"valid_forms_checked": (600, 20000), "bases_with_exhaustive_header_footer_flips": (20, 500), "mutants_accepted_v1": (100, 1000), "miri_mutants": (4, 300)}),
     exhaustive_note="single-byte replacements over all header/footer bytes and all truncation points, for every 8th small base",
 )
 
